@@ -148,7 +148,11 @@ func c03MonSystem(c *ctx, w *hWorld, pre []map[string]*hAccount, sr *stepResult,
 	}
 	// ReturnCallAfterError is set by the protocol on refunds only; a transaction carrying it is not reachable and
 	// bypasses the frozen check by design (C04) — the frozen-flag class is not evaluated for such forged calls
-	forgedRAE := cs.RAE && sr.Op.Kind != opRefund
+	// — except for the four functions that only go through addToESDTBalance (ESDTTransfer, ESDTBurn, ESDTLocalMint, ESDTLocalBurn):
+	// they keep every frozen flag even with the flag set (C03_fungible_functions_keep_frozen), e.g. when a frozen account spends exactly
+	// its whole balance the zero-balance entry stays to carry the flag
+	keepsFlags := cs.Fn == "ESDTTransfer" || cs.Fn == "ESDTBurn" || cs.Fn == "ESDTLocalMint" || cs.Fn == "ESDTLocalBurn"
+	forgedRAE := cs.RAE && sr.Op.Kind != opRefund && !keepsFlags
 	classes := c03Privileged(cs, sr.Res.Status, forgedRAE, cells)
 	if len(classes) == 0 {
 		return
